@@ -73,6 +73,7 @@ def write_evidence(mod: Any, tier: str, seed: int, agg: Any, wall: float, wall_b
         "distinct_dropped_over_cap": agg.nontrivial_dropped,
         "components": COMPONENTS,
         "harness_errors": len(agg.harness_errors),
+        "discarded_runs": agg.discarded_runs,
         "budget_s": budget,
         "workers": workers,
         "python": platform.python_version(),
